@@ -43,6 +43,19 @@ CLAIMED["C20"] = (
     "Trusted: Lean kernel (+propext, Classical.choice, Quot.sound); the hand-written model; the Dask scheduler's choices are sampled on a real in-process cluster (real-time loop; a timeout is a harness error, never a violation), not modelled.",
 )
 
+CLAIMED["C01"] = (
+    "DESIGN.md section 5, C01",
+    "Lean 4 theorems over a hand-written executable model of Stream._emit and every synchronous node's update() (mutual structural recursion on fuel; big-step relation; induction) + deterministic differential correspondence of the full ordered arrive/emit log of every node against the real pipelines",
+    "Proof: (graph level, Props/C01.lean) in every acyclic pipeline each node's state and emissions are exactly its local update function folded over what arrived (run_projects, emits_are_local_outputs), every emission reaches every attached downstream in attachment order and nothing travels where there is no edge (emit_delivers_snapshot, edge_consistency, edge_no_loss_dup_reorder, no_edge_no_arrival), deliveries are depth-first (depth_first), the run terminates and is fuel-independent (dag_terminates, fuel_mono); (node level, Props/C01Sem.lean) for every arrival list the local run of each kind equals its documented list-level meaning written without state: map, starmap, filter, accumulate (all flag combinations), slice = list[start:stop:step], partition (chunks; keyed), partition_unique, sliding_window, unique (unbounded and LRU), flatten, pluck, collect+flush, zip = transpose independent of interleaving (any arity, literals), combine_latest, zip_latest, union. Feedback edges are exercised by the correspondence only (the projection theorem needs acyclicity: a re-entered node with post-emission state updates is outside the model's fidelity, stated in DESIGN.md).",
+    "Trusted: Lean kernel (+propext, Classical.choice, Quot.sound); the hand-written model; user functions from a fixed catalogue with Python twins; zip built with a large maxsize here (its backpressure is C03's); per-instance wrappers of update/_emit for observation.",
+)
+CLAIMED["C19"] = (
+    "DESIGN.md section 5, C19",
+    "Lean 4 theorems over a hand-written model of Stream.__init__ (the four configuration steps, percolation in both directions with its exceptions, get_io_loop) + complete enumeration of small configurations against the real constructors (every node/source type, asynchronous x loop x construction order), thread creation observed",
+    "Proof: children inherit loop and truthy asynchronous (child_inherits_loop/async, child_shares_loop/mode), explicit conflicting loop or mode raises (explicit_*_conflict_raises), a binding never changes afterwards, along every edge the two loops agree or one is unset for histories of any length (history_edges_agree; hypotheses: no raising construction, no multi-input node over inputs already bound to different loops - shown necessary by proved examples), a node declared asynchronous stays on the caller's loop and never creates the background loop (declared_async_*), an undeclared loop-requiring node gets the shared background loop, created at most once (undeclared_ensure_gets_background, history_one_background_loop). The pre-fix clause is kept as a `legacy` world with the negation proved on a witness.",
+    "Trusted: Lean kernel (+propext, Classical.choice, Quot.sound); the hand-written model; thread creation is observed on the implementation (threads / _io_loops), not modelled.",
+)
+
 NOT_YET = {}
 
 
